@@ -430,17 +430,19 @@ def _transforms(val) -> Optional[List[Tuple]]:
 def _duration_pattern(ctx: Ctx, env, alpha, rules, rule_of_kind):
     repo = env.repo
     am = env.schema.module
-    if "DURATION_PATTERN" not in am.assigns:
+    da = repo.assign(am.name, "DURATION_PATTERN")
+    if da is None:
         ctx.fail("R5.duration-pattern", "DURATION_PATTERN", "ast.DURATION_PATTERN not found", am.rel)
         return
     from ..model import Regex
+    am_def, dp_expr = da
     try:
-        dp = repo.fold(am, am.assigns["DURATION_PATTERN"][0])
+        dp = repo.fold(am_def, dp_expr)
     except Exception as e:
         raise AnalysisError(f"DURATION_PATTERN is not a constant: {e}", am.rel)
     if not isinstance(dp, Regex):
         raise AnalysisError("DURATION_PATTERN is not a compiled regex", am.rel)
-    where = am.loc(am.assigns["DURATION_PATTERN"][0])
+    where = am_def.loc(dp_expr)
     ctx.check(not re.search(r"(?<!\\)[a-z]", re.sub(r"\\[a-zA-Z]|\(\?[a-zA-Z:]", "", dp.pattern)), "R5.duration-pattern-uppercase", "DURATION_PATTERN",
               "the lexer upper-cases the duration text; a lower-case letter in DURATION_PATTERN can never match", where)
     for rn in rule_of_kind.get("Duration", []):
